@@ -1,7 +1,9 @@
 (* C09 -- Names resolve lexically; consistent renaming changes nothing.
-   Only pinned statements, `exact`, and Print Assumptions.  `gen_rflags` are the four flags regenerated
+   Only pinned statements, `exact`, and Print Assumptions.  `gen_rflags` are the five flags regenerated
    from name_resolution.rs on this run: do `fn if_branch`, `fn case_branch` and the else-block of a case
-   restore the scope stack; is the root of `x.f` looked up on the scope stack before the namespace table. *)
+   restore the scope stack; is the root of `x.f` looked up on the scope stack before the namespace table;
+   is the import pass repeated until it adds no name (`imports_fixpoint`, see C12).  The specification of
+   lexical scoping takes the global tables as the import pass of the code leaves them: `resolve_spec fx`. *)
 From Coq Require Import String List NArith ZArith Bool.
 From Sylt Require Import Syntax.Resolved Resolve.PAst Resolve.Resolver Resolve.ResolveSpec Resolve.SpecProofs
      Resolve.RefineRefuted Resolve.Wf Resolve.NsShadow Resolve.RefineProofs Resolve.NsShadowProofs Resolve.Alpha Resolve.AlphaProofs Resolve.AlphaExample Gen.GenResolve.
@@ -40,7 +42,7 @@ Proof. exact lookup_in_global. Qed.
    named like an imported namespace (the specification makes it a field access).
    Witnesses: Resolve/RefineRefuted.v (w_if, w_case, w_else, w_nsfield). *)
 Theorem C09_resolve_refines_refuted :
-  all_restore fl = false -> exists ast, is_ok (resolve fl ast) = true /\ resolve fl ast <> resolve_spec ast.
+  all_restore fl = false -> exists ast, is_ok (resolve fl ast) = true /\ resolve fl ast <> resolve_spec (imports_fixpoint fl) ast.
 Proof. exact (resolve_refines_refuted fl). Qed.
 
 (* PROVED for the resolver with all four flags on, on every well-formed AST (`wf_ast`: what the parser
@@ -49,11 +51,11 @@ Proof. exact (resolve_refines_refuted fl). Qed.
    specification -- same variable table, same statements, same first error.  It applies to the code as
    soon as the regenerated flags are all on (all_restore fl = true). *)
 Theorem C09_resolve_refines :
-  all_restore fl = true -> forall ast, wf_ast ast = true -> resolve fl ast = resolve_spec ast.
+  all_restore fl = true -> forall ast, wf_ast ast = true -> resolve fl ast = resolve_spec (imports_fixpoint fl) ast.
 Proof. exact (resolve_refines_when_restored fl). Qed.
 
 Theorem C09_resolve_refines_restored :
-  forall ast, wf_ast ast = true -> resolve (mkFlags true true true true) ast = resolve_spec ast.
+  forall fx ast, wf_ast ast = true -> resolve (mkFlags true true true true fx) ast = resolve_spec fx ast.
 Proof. exact resolve_refines. Qed.
 
 (* THE CODE AS IT IS after the scope fixes has the three restore flags on and still consults the
@@ -64,34 +66,36 @@ Proof. exact resolve_refines. Qed.
        that one quirk), on every well-formed AST; *)
 Theorem C09_resolve_refines_nsfirst :
   restores fl = true ->
-  forall ast, wf_ast ast = true -> resolve fl ast = resolve_spec_g (access_local_first fl) ast.
+  forall ast, wf_ast ast = true -> resolve fl ast = resolve_spec_g (access_local_first fl) (imports_fixpoint fl) ast.
 Proof. exact (resolve_refines_restores fl). Qed.
 
 (* (2) the quirk is invisible on every program that satisfies the computable condition `no_ns_shadow`:
        no binder (parameter, local definition, case binding, `self`) has the name of the root x of an
        access chain `x.f...` written in a file in which x is a namespace name after the import passes. *)
 Theorem C09_nsfirst_is_lexical :
-  forall ast, no_ns_shadow ast = true -> resolve_spec_nsfirst ast = resolve_spec ast.
+  forall fx ast, no_ns_shadow fx ast = true -> resolve_spec_nsfirst fx ast = resolve_spec fx ast.
 Proof. exact nsfirst_is_lexical. Qed.
 
 (* Hence: names resolve lexically (the documented specification, scope before namespace) on every
    well-formed program without such a shadowing. *)
 Theorem C09_resolve_refines_modulo_ns :
   restores fl = true ->
-  forall ast, wf_ast ast = true -> no_ns_shadow ast = true -> resolve fl ast = resolve_spec ast.
+  forall ast, wf_ast ast = true -> no_ns_shadow (imports_fixpoint fl) ast = true ->
+  resolve fl ast = resolve_spec (imports_fixpoint fl) ast.
 Proof. exact (resolve_refines_modulo_ns fl). Qed.
 
 (* non-vacuity: the hypotheses hold of a two-file program that imports a namespace b, reads `b.value`
    through it and `q.value` through a parameter q (accepted, and equal to the specification); they fail
    -- as they must -- when the parameter is itself called b. *)
 Example C09_modulo_ns_example :
-  wf_ast w_nsfield_ok = true /\ no_ns_shadow w_nsfield_ok = true /\ is_ok (resolve_spec w_nsfield_ok) = true
-  /\ no_ns_shadow ex_left = true /\ wf_ast w_nsfield = true /\ no_ns_shadow w_nsfield = false.
-Proof. vm_compute. repeat split. Qed.
+  forall fx,
+  wf_ast w_nsfield_ok = true /\ no_ns_shadow fx w_nsfield_ok = true /\ is_ok (resolve_spec fx w_nsfield_ok) = true
+  /\ no_ns_shadow fx ex_left = true /\ wf_ast w_nsfield = true /\ no_ns_shadow fx w_nsfield = false.
+Proof. intros []; vm_compute; repeat split. Qed.
 
 (* non-vacuity: a well-formed program that both accept *)
 Example C09_resolve_refines_example :
-  wf_ast ex_left = true /\ is_ok (resolve_spec ex_left) = true
+  wf_ast ex_left = true /\ is_ok (resolve_spec (imports_fixpoint fl) ex_left) = true
   /\ wf_ast w_if = true /\ wf_ast w_case = true /\ wf_ast w_else = true /\ wf_ast w_nsfield = true.
 Proof. vm_compute. repeat split. Qed.
 
@@ -106,8 +110,8 @@ Theorem C09_alpha : forall (g : string -> string) is_ns sure_ns,
   (forall x y, g x = g y -> x = y) -> g "start" = "start" ->
   forall fuel p p',
   alpha_ast fl g is_ns sure_ns p p' ->
-  (forall st, passes p = Ok (tt, st) -> ns_sound is_ns st /\ sure_sound sure_ns st) ->
-  (forall st, passes p' = Ok (tt, st) -> ns_sound is_ns st) ->
+  (forall st, passes fl p = Ok (tt, st) -> ns_sound is_ns st /\ sure_sound sure_ns st) ->
+  (forall st, passes fl p' = Ok (tt, st) -> ns_sound is_ns st) ->
   res_rel (resolve_fuel fl fuel p) (resolve_fuel fl fuel p').
 Proof. exact (alpha_resolve_fuel fl). Qed.
 
@@ -122,7 +126,7 @@ Proof. exact (alpha_example fl). Qed.
    one: the renaming of a branch-local variable, consistent by the lexical rules, changes the result. *)
 Theorem C09_alpha_lexical_refuted :
   if_truncates fl = false ->
-  alpha_ast (mkFlags true true true true) (fun s => s) no_ns no_sure (leak_p "y") (leak_p "z")
+  alpha_ast (mkFlags true true true true false) (fun s => s) no_ns no_sure (leak_p "y") (leak_p "z")
   /\ ~ res_rel (resolve fl (leak_p "y")) (resolve fl (leak_p "z")).
 Proof. exact (alpha_lexical_refuted fl). Qed.
 
